@@ -221,6 +221,11 @@ class Type1Tag(Tag):
             # Leave room for ndef message length byte(s) and write
             # ndef data into the memory image, but jump over skip
             # bytes.
+            if len(data) >= 255 and (offset + 1) >> 3 != (offset + 2) >> 3:
+                # The three byte length field starts in one block and
+                # continues in the next. Clear the continuation so that
+                # an interrupted final length write reads as length zero.
+                tag_memory[offset+2:offset+4] = b"\x00\x00"
             offset += 2 if len(data) < 255 else 4
             for i in range(len(data)):
                 while offset + i in skip_bytes:
@@ -242,6 +247,11 @@ class Type1Tag(Tag):
             if len(data) < 255:
                 tag_memory[offset+1] = len(data)
             else:
+                if (offset + 2) >> 3 != (offset + 3) >> 3:
+                    # The last length byte is in the next block, it must
+                    # be on the tag before the first two bytes are valid.
+                    tag_memory[offset+3] = len(data) & 0xFF
+                    tag_memory.synchronize()
                 tag_memory[offset+1] = 0xFF
                 tag_memory[offset+2:offset+4] = pack(">H", len(data))
             tag_memory.synchronize()
